@@ -15,7 +15,8 @@ EXPLANATION = (
     'bytes) with a reference DFA built independently from the RFC 3629 grammar; the scanning loop, the '
     'routing of text/continuation payloads through the validating reader, the validator reset / text-tracking '
     'discipline and the strictness of the final decode are decided as shape rules on CFGs. The DFA product is '
-    'exhaustive; correctness of CPython\'s bytes.decode is an assumption.')
+    'exhaustive; correctness of CPython\'s bytes.decode is an assumption.'
+    ' Also decided: package-wide isolation (objects created once per class or per function definition - class-level attributes, parameter defaults - are only read), so that no buffer, validator, cache, lock or option table is shared between connections by accident.')
 NOT_DECIDED = ('correctness of bytes.decode(\'utf-8\') (assumption); the optional wsaccel C validator; '
                'fail-fast timing for compressed text (exempt)')
 ASSUMPTIONS = ['CPython bytes.decode("utf-8") in strict mode accepts exactly RFC 3629 well-formed input',
